@@ -11,6 +11,11 @@ def more():
         "C17": dict(family=fam_expr.FamilyC17(), lean=["TinyFlux.Props.C17"], gen=("Hash",), ref="5/C17",
                     replay=fam_expr.replay_c17),
     }
+    import fam_hist
+
+    for pid in ("C01", "C02", "C03", "C06", "C07", "C10", "C11"):
+        reg[pid] = dict(family=fam_hist.Family(pid), lean=[f"TinyFlux.Props.{pid}"], gen=("Utils", "Forward") if pid == "C10" else ("Utils",), ref=f"5/{pid}",
+                        replay=fam_hist.replay)
     reg["C05"] = dict(family=fam_c05.Family(), lean=["TinyFlux.Props.C05"], gen=("Codec",), ref="5/C05",
                       replay=fam_c05.replay)
     return reg
